@@ -292,48 +292,54 @@ class Runner:
 
 def visitor_trace(ctx, mods, thorough):
     """Binding of the Role-A traversal models (VisitorLive / VisitorOrder) to the code by trace validation: the REAL
-    taint visitor's traversal (verif hook taint.VerifOnVisit, harness/cmd/vistrace) of a few modules of generated
-    programs is validated line by line against spec/VisitorTrace.tla.  A rejected trace is specification drift
-    (recorded, never a verdict); a corrupted copy of the trace must be rejected (binding self-test, else exit 2)."""
+    forward (taint, FIFO) and backward (backtrace, LIFO) traversals of a few modules of generated programs, recorded
+    through the verif hooks taint.VerifOnVisit / backtrace.VerifOnVisit (harness/cmd/vistrace), are validated line by
+    line against spec/VisitorTrace.tla.  A rejected trace is specification drift (recorded, never a verdict); a
+    corrupted copy of each trace must be rejected (binding self-test, else exit 2)."""
     import subprocess
     bins = ctx.build(["vistrace"])
     chosen = [m for m in sorted(mods) if mods[m] and mods[m][0].kind in ("chain", "shape")]
     chain_m = [m for m in chosen if mods[m][0].kind == "chain"][: (4 if thorough else 2)]
     shape_m = [m for m in chosen if mods[m][0].kind == "shape"][: (4 if thorough else 2)]
-    events = []
-    for m in chain_m + shape_m:
-        out = os.path.join(m, "vtrace.ndjson")
-        q = subprocess.run([bins["vistrace"], "-dir", m, "-patterns", ",".join("./" + p.name for p in mods[m]),
-                            "-taint", ",".join(os.path.join(m, c + ".yaml") for c in ("t000", "t010")), "-out", out,
-                            "-max", "40000" if thorough else "15000"],
+    out = {}
+    for direction, cfgs, flag, tlccfg in (("forward", ("t000", "t010"), [], "VisitorTrace.cfg"),
+                                          ("backward", ("b0", "b1"), ["-backward"], "VisitorTraceBack.cfg")):
+        events = []
+        for m in chain_m + shape_m:
+            of = os.path.join(m, "vtrace-%s.ndjson" % direction)
+            subprocess.run([bins["vistrace"], "-dir", m, "-patterns", ",".join("./" + p.name for p in mods[m]),
+                            "-taint", ",".join(os.path.join(m, c + ".yaml") for c in cfgs), "-out", of,
+                            "-max", "40000" if thorough else "15000"] + flag,
                            env=vlib.goenv(), stdout=subprocess.PIPE, stderr=subprocess.PIPE, text=True, timeout=1200)
-        if os.path.exists(out):
-            events += vlib.read_ndjson(out)
-    ntrav = sum(1 for e in events if e["op"] == "source")
-    if ntrav < 10:
-        raise Inconclusive("vistrace recorded only %d traversals" % ntrav)
-    r = ctx.tlc("VisitorTrace", data={"vtrace.ndjson": vlib.ndjson(events)}, subdir="vistrace", timeout=1500, deadlock=False,
-                xmx="4g")
-    accepted = r.ok and "VISITORTRACE" in r.out
-    res = {"events": len(events), "traversals": ntrav, "lasso_stops": sum(1 for e in events if e["op"] == "lasso"),
-           "seen_stops": sum(1 for e in events if e["op"] == "stop"), "accepted": accepted}
-    if not accepted:
-        m_ = re.search(r"visitor trace rejected at line\", (\d+)", r.out)
-        res["spec_drift"] = ("the real traversal is not a behaviour of VisitorTrace.tla" +
-                             (" (first rejected line %s: %s)" % (m_.group(1), events[int(m_.group(1)) - 1]) if m_ else "") +
-                             "; " + r.out[-400:].replace("\n", " "))
-        print("NOTE spec drift (Role A, not a verdict): " + res["spec_drift"][:300])
-    # binding self-test: the same trace with one admitted element enqueued a second time must be rejected
-    k = next((i for i, e in enumerate(events) if e["op"] == "add"), None)
-    if accepted and k is not None:
-        bad = events[: k + 1] + [dict(events[k])] + events[k + 1:]
-        r2 = ctx.tlc("VisitorTrace", data={"vtrace.ndjson": vlib.ndjson(bad)}, subdir="vistrace-selftest", timeout=1500,
-                     deadlock=False, xmx="4g")
-        res["corrupted_trace_rejected"] = not (r2.ok and "VISITORTRACE" in r2.out)
-        if not res["corrupted_trace_rejected"]:
-            raise Inconclusive("VisitorTrace.tla accepts a corrupted trace (an element admitted twice): the trace spec is vacuous")
-    ctx.traces += ntrav
-    return res
+            if os.path.exists(of):
+                events += vlib.read_ndjson(of)
+        ntrav = sum(1 for e in events if e["op"] == "source")
+        if ntrav < 10:
+            raise Inconclusive("vistrace recorded only %d %s traversals" % (ntrav, direction))
+        r = ctx.tlc("VisitorTrace", cfg=tlccfg, data={"vtrace.ndjson": vlib.ndjson(events)}, subdir="vistrace-" + direction,
+                    timeout=1500, deadlock=False, xmx="4g")
+        accepted = r.ok and "VISITORTRACE" in r.out
+        res = {"events": len(events), "traversals": ntrav, "lasso_stops": sum(1 for e in events if e["op"] == "lasso"),
+               "seen_stops": sum(1 for e in events if e["op"] == "stop"), "accepted": accepted}
+        if not accepted:
+            m_ = re.search(r"visitor trace rejected at line\", (\d+)", r.out)
+            res["spec_drift"] = ("the real %s traversal is not a behaviour of VisitorTrace.tla" % direction +
+                                 (" (first rejected line %s: %s)" % (m_.group(1), events[int(m_.group(1)) - 1]) if m_ else "") +
+                                 "; " + r.out[-400:].replace("\n", " "))
+            print("NOTE spec drift (Role A, not a verdict): " + res["spec_drift"][:300])
+        # binding self-test: the same trace with one admitted element enqueued a second time must be rejected
+        k = next((i for i, e in enumerate(events) if e["op"] == "add"), None)
+        if accepted and k is not None:
+            bad = events[: k + 1] + [dict(events[k])] + events[k + 1:]
+            r2 = ctx.tlc("VisitorTrace", cfg=tlccfg, data={"vtrace.ndjson": vlib.ndjson(bad)},
+                         subdir="vistrace-selftest-" + direction, timeout=1500, deadlock=False, xmx="4g")
+            res["corrupted_trace_rejected"] = not (r2.ok and "VISITORTRACE" in r2.out)
+            if not res["corrupted_trace_rejected"]:
+                raise Inconclusive("VisitorTrace.tla accepts a corrupted %s trace (an element admitted twice): the trace spec "
+                                   "is vacuous" % direction)
+        ctx.traces += ntrav
+        out[direction] = res
+    return out
 
 
 def run(ctx):
